@@ -74,6 +74,7 @@ pub fn exec(case: &Value) -> Vec<Value> {
     let pkind = get_str(case, "pipeline");
     let dir = std::env::temp_dir().join(format!("tuverif-loader-{}-{:?}", std::process::id(), std::thread::current().id()));
     let _ = std::fs::create_dir_all(&dir);
+    let bad: Vec<(usize, usize)> = case.get("bad").and_then(|x| x.as_array()).map(|a| a.iter().map(|e| (e[0].as_u64().unwrap() as usize, e[1].as_u64().unwrap() as usize)).collect()).unwrap_or_default();
     let mut files = vec![];
     let mut corpus = String::new();
     for (k, n) in lens.iter().enumerate() {
@@ -84,7 +85,12 @@ pub fn exec(case: &Value) -> Vec<Value> {
             // (realistic spelling corruption then chooses among the parts)
             let text = format!("w{}x{} {} {} {} {} {}-{}-{}", k, l, VOCAB[(k + l) % 8], VOCAB[(3 * l + 1) % 8], VOCAB[(l * l + k) % 8], VOCAB[(5 * k + l + 2) % 8],
                                VOCAB[(k + l) % 3], VOCAB[(k + l + 1) % 3], VOCAB[(2 * l + k) % 3]);
-            s.push_str(&format!("{{\"input\": \"{text}\"}}\n"));
+            if bad.contains(&(k, l)) {
+                // a line that cannot be parsed: the loader logs it and goes on; it keeps its place in the enumeration
+                s.push_str("{\"input\": \n");
+            } else {
+                s.push_str(&format!("{{\"input\": \"{text}\"}}\n"));
+            }
             corpus.push_str(&text);
             corpus.push('\n');
         }
@@ -153,8 +159,8 @@ pub fn exec(case: &Value) -> Vec<Value> {
         }
     }
     let _ = std::fs::remove_dir_all(&dir);
-    let bad = runs_out.iter().find(|r| r["st"] != "ok").map(|r| r["st"].as_str().unwrap().to_string());
-    vec![json!({"st": bad.unwrap_or(st), "lens": lens, "strategy": strat_s, "seed": seed, "epoch": epoch, "pipeline": pkind,
+    let bad_st = runs_out.iter().find(|r| r["st"] != "ok").map(|r| r["st"].as_str().unwrap().to_string());
+    vec![json!({"st": bad_st.unwrap_or(st), "bad": bad.iter().map(|(f, l)| json!([f, l])).collect::<Vec<_>>(), "lens": lens, "strategy": strat_s, "seed": seed, "epoch": epoch, "pipeline": pkind,
                 "runs": runs_out, "case": case})]
 }
 
